@@ -134,7 +134,7 @@ theorem LooserDMapped.toW : {m m' : Option Ty} → LooserDMapped m m' → Looser
   | _, _, .some h => .some (LooserD.toW h)
 end
 
-/-- plain `Looser` embeds into `LooserD` -/
+/-! plain `Looser` embeds into `LooserD` -/
 mutual
 theorem LooserD.of_looser : {t t' : Ty} → Looser t t' → LooserD t t'
   | _, _, .refl t => LooserD.refl t
